@@ -860,6 +860,7 @@ From NV Require Import Scalar.Ops Model.Common Model.Basis Model.Knots Model.Kno
   Proofs.GenTieLib Proofs.GenTieKnots Proofs.GenTieSpan Proofs.GenTieBasis Proofs.GenTieBasisOne
   Proofs.GenTieDersOne Proofs.GenTieDersLib Proofs.GenTieDers Proofs.GenTieKnotIns.
 Local Open Scope nat_scope.
+From NV Require Import Gen.PreludeExt Gen.LinalgMat Proofs.GenTieMat Proofs.GenTieMatSolve Proofs.GenTieBinom.
 
 (* [G] helpers.knot_removal_kv; wf: span + 1 <= len(knotvector), r <= span + 1 *)
 Theorem C06_gen_knot_removal_kv_R : forall (U : list R) (span r : nat),
